@@ -52,6 +52,19 @@ CHECKS = {
                 "handshake messages fragmented across records are not covered",
         "technique": "bounded exhaustive enumeration of record histories / suites / handshake shapes against a reference peer model",
     },
+    "C02": {
+        "category": "model_checking",
+        "text": "Every QUIC v1 connection within 2 deviations of the default over ~110 alternatives (4 suites, offered order, CID "
+                "lengths 0/1/8/20, packet-number length/start/gaps, coalescing partitions, 13 frame types before/after STREAM, "
+                "several STREAM frames/streams, all STREAM flag combinations, ClientHello split over 2-3 CRYPTO frames in every "
+                "order, Retry, 0-RTT, NEW_CONNECTION_ID switch, IPv6), every frame sequence of length <=2 around the STREAM frame, "
+                "and every packet history (<=8 packets, 3 generations) of an explicit-state model of the RFC 9001 key-update "
+                "protocol, each rendered by the peer model and run through the real program. Oracle: datagram list equality.",
+        "design_ref": "DESIGN.md section 5, C02",
+        "note": "trusted: the QUIC peer model mc/model/quic.py (anchored on RFC 9001 Appendix A vectors and the repository's "
+                "captures), our pcapng reader; only v1, only conformant histories; data bytes from VERIF_SEED",
+        "technique": "deviation-bounded exhaustive enumeration + explicit-state protocol model whose every trace is replayed on the implementation",
+    },
 }
 
 NOT_YET = "check not built yet in this round (planned: bounded exhaustive exploration, see DESIGN.md section 5)"
